@@ -10,7 +10,25 @@
         (else 'junk)))
 
 (define (at-root r) (vector-ref roots r))
-(define (at-eph e i) (list-ref (ephemeron-value (vector-ref ephs e)) i))
+(define (at-eph e i)
+  (let ((v (ephemeron-value (vector-ref ephs e))))
+    (if (vector? v) (vector-ref v i) (list-ref v i))))
+
+;; a value that does not fit into the small holes a collection leaves behind: it is allocated at the high end of the heap
+(define (big-value items)
+  (let ((v (make-vector 400 #f)))
+    (let lp ((i 0) (ls items))
+      (if (pair? ls) (begin (vector-set! v i (car ls)) (lp (+ i 1) (cdr ls))) v))))
+
+(define (vector-ids v)
+  (let lp ((i 0) (acc '()))
+    (if (or (= i (vector-length v)) (not (vector-ref v i)))
+        (reverse acc)
+        (lp (+ i 1) (cons (obj-id (vector-ref v i)) acc)))))
+
+;; short-lived small objects: after the next collection they are holes at the low end of the heap
+(define (junk-pairs n)
+  (let lp ((i 0) (acc '())) (if (< i n) (lp (+ i 1) (cons i acc)) (length acc))))
 
 (define (observe)
   (let lp ((i 0) (acc '()))
@@ -27,6 +45,7 @@
                           (list (if b 'broken 'intact)
                                 (obj-id k)
                                 (cond ((pair? v) (map obj-id v))
+                                      ((vector? v) (vector-ids v))
                                       ((null? v) '())
                                       ((not v) 'none)
                                       (else 'junk))))
